@@ -186,7 +186,13 @@ def verus_unit(pid, spec, repo, tier, out):
     path = os.path.join(wd, name + ".rs")
     vpath = os.path.join(wd, name + "__vacuity.rs")
     open(path, "w").write(unit.text)
-    open(vpath, "w").write(vac.text)
+    # second vacuity probe: all broadcast axioms / broadcast lemmas of the unit switched on together must not prove `false`
+    vtext = vac.text
+    axs = sorted(set(re.findall(r"pub broadcast (?:axiom|proof) fn (\w+)", vtext)))
+    k = vtext.rfind("\n}\nfn main")
+    if axs and k > 0:
+        vtext = vtext[:k] + "\npub proof fn vacuity_all_axioms_together() { broadcast use %s; assert(false); }\n" % ", ".join(axs) + vtext[k:]
+    open(vpath, "w").write(vtext)
     out.extraction += [dict(e, unit=name) for e in unit.log]
     for fn in unit.functions:
         out.functions_under_contract.append("%s:%d %s" % (fn["file"], fn["repo_line"], fn["name"]))
@@ -293,6 +299,10 @@ def verus_unit(pid, spec, repo, tier, out):
             hits = [v for v in vok if v.endswith(fn["name"])]
             if hits:
                 out.undecided.append("%s: VACUOUS: `assert(false)` at the entry of %s verifies (contradictory requires/axioms)" % (name, fn["name"]))
+        if any(short(f["function"]).endswith("vacuity_all_axioms_together") and f["success"] for f in vres.functions):
+            out.undecided.append("%s: VACUOUS: the unit's broadcast axioms together prove `false`" % name)
+        elif any(short(f["function"]).endswith("vacuity_all_axioms_together") for f in vres.functions):
+            out.notes.append("%s: vacuity guard: all broadcast axioms of the unit together do not prove `false`" % name)
         out.notes.append("%s: vacuity guard: %d/%d contracted functions reject `assert(false)` at entry" % (
             name, len(unit.functions) - sum(1 for fn in unit.functions if any(v.endswith(fn["name"]) for v in vok)),
             len(unit.functions)))
